@@ -26,7 +26,7 @@ CLAIMED = {
    note="Trusted: as C02; Model/LangValid.v is the transcription of the language's validity rules.",
    ref="5/C07"),
  "C11": dict(
-   technique="Coq theorems (unbounded) over the translated panicking forms: each is the twin of its try_ form (incl. unreachability of unreachable!() in cast_ref/cast_mut/bytes_of); correspondence + monitor under catch_unwind on the castgrid harness",
+   technique="Coq theorems (unbounded) over the translated panicking forms: each is the twin of its try_ form (incl. unreachability of unreachable!() in cast_ref/cast_mut/bytes_of); correspondence + monitor under catch_unwind on the castgrid harness and, for the owning-container and BoxBytes forms, on the allocgrid harness (input freed exactly once after the caught panic)",
    text="Proof: for every borrowed and by-value panicking form (root and checked) the outcome is Ret v exactly when the try_ form is Ok v and the something_went_wrong panic carrying e exactly when it is Err e; the duplicated fast paths of cast_ref/cast_mut are proved consistent with try_cast_ref/_mut (their unreachable!() is unreachable for every valid reference). The real crate's panicking forms are run under catch_unwind next to their try_ forms on every grid case; the monitor compares the pair; source bytes are compared before/after. Owning-container forms are covered by the allocation harness (ledger after the caught panic).",
    note="Trusted: as C02. Panics are observed as unwinding (catch_unwind) with the message class parsed; abort would terminate the harness and is reported as a harness error.",
    ref="5/C11"),
@@ -35,6 +35,36 @@ CLAIMED = {
    text="Proof: for each of the five must_ functions the conjunction of its generated compile-time assertions is true if and only if the corresponding try_ cast returns Ok for every valid input of those types (both directions, using an explicit misaligned witness), and when it is true the must_ function returns exactly what the try_ function returns (no overflow in len * (size A / size B), no division by zero). The tie: one rustc run per function over all ordered pairs gives the real compile verdict of every instantiation, compared with the model's verdict and with the code-independent infallibility predicate; every accepted instantiation is then executed at run time (all lengths, residues) and in a const context next to the try_ form.",
    note="Trusted: as C02; rustc's const evaluation of the assertions (post-monomorphisation errors parsed from the build output).",
    ref="5/C14"),
+ "C09": dict(
+   technique="Coq theorems (unbounded) over a hand-written model of src/allocation.rs and of std's allocation layouts; invariant by induction over all Rc/Arc handle histories; ledger correspondence under a recording global allocator",
+   text="Proof: for every container kind (Box, Box<[T]>, Vec, Rc, Rc<[T]>, Arc, Arc<[T]>) and all sizes, alignments, lengths and capacities, a successful cast yields a container with the same data pointer whose drop hands the allocator exactly the (size, align) the original would have, and a failed cast returns the input unchanged; for every history of clone/downgrade/upgrade/cast/drop over the handles of one Rc/Arc allocation the block is freed exactly once and exactly when the last handle goes. The model is tied to the code by correspondence: the real crate runs on the type grid under a recording allocator and every observation vector (decision, pointer, length, capacity, allocator events inside the call, the layout passed to dealloc versus the layout allocated, leaks, counts) is compared with the extracted model and checked by the monitor.",
+   note="Trusted: Coq kernel; extraction + OCaml driver; harness and its recording allocator; Model/Alloc.v is hand-written (correspondence is the only tie); std's Box/Vec/Rc/Arc layouts and reference counting are modelled, not verified; Arc atomics assumed linearisable (partial: no model here exhibits a weak-memory execution).",
+   ref="5/C09"),
+ "C10": dict(
+   technique="Coq theorems (unbounded) over the hand-written ladders of Model/Alloc.v: Ok iff equal alignment and exactly convertible byte length (and byte capacity for Vec), truthful error, same address, preserved byte length/capacity; ledger correspondence",
+   text="Proof: for every container kind and all sizes, alignments, lengths and capacities the cast returns Ok iff the alignments are equal and the byte length (for Vec also the byte capacity) converts exactly (a zero-sized target only for zero bytes), otherwise an error whose named condition really failed, with the input handed back; on success the address is unchanged and length/capacity are the byte counts divided by the new element size; a cast does not touch the reference counts. Tie: correspondence run as for C09 (decision, error variant, pointer, length, capacity, bytes, strong/weak counts compared exactly).",
+   note="As C09.",
+   ref="5/C10"),
+ "C12": dict(
+   technique="Coq theorems over hand models of write_zeroes/fill_zeroes with panicking destructors (all slices, all panic positions) and of the try_zeroed family over a failing allocator; correspondence with drop-counting, panic-on-drop elements, dirty memory and injected allocation failure",
+   text="Proof: fill_zeroes over any slice with the first panicking destructor at any position j leaves slots 0..=j zeroed (the panicking value's slot included), later slots untouched, runs destructors 0..=j exactly once in order and unwinds iff some destructor panicked; without drop glue every slot is zeroed; try_zeroed_slice_box/vec return the requested length (and capacity for non-zero-sized elements), refuse a layout overflow without calling the allocator and report a null allocation as Err. Tie: the real crate on memory pre-filled with 0xA5 (heap and in place), padded/over-aligned/zero-sized types, lengths incl. the overflow boundaries, every panic position, injected (and genuine) allocation failure; every byte including padding checked for zero; vectors compared with the extracted model and the monitor.",
+   note="Hand models (correspondence is the tie). By-value Zeroable::zeroed() of a padded type: padding of a moved value is not guaranteed by the language; padding is checked for in-place and heap APIs only.",
+   ref="5/C12"),
+ "C13": dict(
+   technique="Coq theorems (thin) over a pointer-with-metadata model of the wrapper conversions; correspondence over all twenty methods incl. unsized inners (slice, str, dyn Trait by dispatch), drop counters and the allocator ledger",
+   text="Proof (thin by nature): each reference/slice/value conversion is the identity on (address, metadata) / bytes under its size and alignment assertions, wrap followed by peel is the identity, and the container forms do not touch reference counts; the layout identity of wrapper and inner is the trait's contract. The assurance is mostly the correspondence: all ten reference/slice methods and all ten container methods on wrappers over every grid type (with zero-sized extra fields), Drop-carrying inners (moved exactly once), [T], str and dyn Trait (vtable checked by dispatch), lengths 0..=8, spare capacities, counts and ledger.",
+   note="Partial: theorems are identity functions; correspondence carries the assurance.",
+   ref="5/C13"),
+ "C15": dict(
+   technique="Coq theorems (unbounded) over the hand-written BoxBytes model: recorded layout = the box's drop layout, drop frees iff size != 0 with that layout, conversion back iff alignment equal and size matching, failure returns the BoxBytes unchanged; ledger correspondence",
+   text="Proof: box_bytes_of records exactly the (size, align) the Box would have freed and the same pointer; dropping a BoxBytes frees with that layout iff the size is non-zero; try_from_box_bytes succeeds iff the alignment equals the recorded one and the size matches (exactly / a whole number of elements, zero-sized element only for zero bytes), returns the same address and a box whose drop layout is the recorded layout, and otherwise returns the BoxBytes unchanged with a truthful error; converting there and back is the identity. Tie: every grid type as value, slice 0..=L and str, every target type, raw-parts round trip, panicking forms; pointer, reported layout, bytes, dealloc layout vs alloc layout, leaks compared exactly.",
+   note="As C09.",
+   ref="5/C15"),
+ "C16": dict(
+   technique="Coq theorems over the hand-written model of pod_collect_to_vec (ceil-division length, prefix = source bytes, zero tail) plus a refutation theorem for the zero-sized-target defect; correspondence at every alignment residue under the recording allocator",
+   text="Proof: for every source byte string and every target of non-zero size the result has length ceil(bytes / size), its leading bytes are the source bytes, the rest are zero, and the count computation neither divides by zero nor overflows; for a zero-sized target the pinned code path divides by zero (C16_zst_target_refuted) - the genuine defect recorded in known_findings.json. Tie: all ordered pairs of grid types incl. zero-sized sources and targets, lengths 0..=L, every residue, catch_unwind; length, prefix, tail, alignment of the new buffer, layout of its allocation, leaks.",
+   note="Hand model (correspondence is the tie). The monitor demands 'never panics' for every target incl. zero-sized ones.",
+   ref="5/C16"),
 }
 
 checks = []
